@@ -118,7 +118,7 @@ ProtoClean(T0, fuel) == LET T == Resolve(T0) IN
   fuel = 0 \/
   CASE T.k = "map" -> T.proto /\ ProtoClean(T.key, fuel - 1) /\ ProtoClean(T.val, fuel - 1)
     [] T.k \in {"ptr", "slice"} -> ProtoClean(T.e, fuel - 1)
-    [] T.k = "struct" -> \A i \in 1..Len(T.f) : ~T.f[i].enc \/ ProtoClean(T.f[i].t, fuel - 1)
+    [] T.k = "struct" -> \A i \in 1..Len(T.f) : ~T.f[i].enc \/ (T.f[i].i >= 1 /\ ProtoClean(T.f[i].t, fuel - 1))     \* 0 is not a protobuf field number
     [] T.k = "null" -> T.of # "time"
     [] T.k \in {"jsonobj", "jsonarr", "bqtime"} -> FALSE
     [] OTHER -> TRUE
